@@ -1,5 +1,5 @@
 #!/usr/bin/env python3
-"""diagnosis helper: pretty-print mismatches of an eval trace (trace.ndjson + out.json)"""
+"""compact rendering of wire-form values, expressions and results (diagnosis, finding descriptors)"""
 import json,sys
 def num(n):
     v=0
@@ -33,15 +33,3 @@ def se(e):
 def so(o):
     if not o.get('ok'): return 'ERR'+('(panic)' if 'panic' in o else '')+(' '+o.get('cls','') )
     return sv(o['v'])
-if __name__=='__main__':
-    d=sys.argv[1]; lim=int(sys.argv[2]) if len(sys.argv)>2 else 25
-    out=json.load(open(d+'/out.json'))
-    tr=[json.loads(l) for l in open(d+'/trace.ndjson')]
-    n=0
-    for b in out['bad']:
-        ev=tr[b['event']-1]
-        for it in b['items']:
-            i=it['idx']-1
-            print(se(ev['exprs'][i])[:400]); print('   obs:',so(ev['obs'][i])[:200], ev['obs'][i].get('az'),' exp:',so(it['exp'])[:200])
-            n+=1
-        if n>lim: break
